@@ -9,7 +9,34 @@ from ..core import Viol
 from ..workloads import corpus
 
 
-def check_byteflow(co, scfg):
+def check_instruction_retrieval(co, flow, per):
+    """The library's own view of "which instructions are in this block"
+    (PythonBytecodeBlock.get_instructions over SCFG.bcmap_from_bytecode) is
+    exactly the dis instructions between begin and end: every instruction
+    of the code object in exactly one block, in order, nothing invented."""
+    from numba_scfg.core.datastructures.scfg import SCFG
+
+    try:
+        bcmap = SCFG.bcmap_from_bytecode(flow.bc)
+    except Exception as e:
+        raise Viol("C09", "bcmap_from_bytecode_raised", repr(e)[:200])
+    seen = []
+    for b in sorted(flow.scfg.graph.values(), key=lambda b: b.begin):
+        try:
+            got = b.get_instructions(bcmap)
+        except Exception as e:
+            raise Viol("C09", "get_instructions_raised", (b.name, repr(e)[:200]))
+        g = [(i.offset, i.opname) for i in got]
+        w = [(i.offset, i.opname) for i in per.get(b.name, [])]
+        if g != w:
+            raise Viol("C09", "get_instructions_differs_from_dis",
+                       {"block": b.name, "range": [b.begin, b.end], "got": g[:8], "want": w[:8],
+                        "n_got": len(g), "n_want": len(w)})
+        seen += g
+    return len(seen)
+
+
+def check_byteflow(co, scfg, flow=None):
     """scfg: the SCFG of ByteFlow.from_bytecode(co).  Raises Viol('C09', ...)."""
     ins = list(dis.get_instructions(co))
     offs = [i.offset for i in ins]
@@ -70,4 +97,6 @@ def check_byteflow(co, scfg):
                         "got": got, "want": tuple(want)})
         if b.backedges:
             raise Viol("C09", "fresh_graph_with_backedges", (b.name, b.backedges))
+    if flow is not None:
+        stats["instructions_retrieved"] = check_instruction_retrieval(co, flow, per)
     return stats
